@@ -429,4 +429,93 @@ value, falsy ones included (`0`, `false`, `""`, `[]`), is stored. -/
 def metaSetV (m : Option (List (String × String))) (k v : String) : Option (List (String × String)) :=
   if v == "null" then metaClear m (some k) else metaSet m k v
 
+/-! ### the shortcuts of `add_child` -/
+
+/-- the four shortcuts of `add_child` (node.py / typed_tree.py): `append_child`, `prepend_child`,
+`prepend_sibling`, `append_sibling`.  (They exist on `Node` / `TypedNode` only; `Tree` has none of
+them — the system root is reached through `tree.system_root`.) -/
+inductive Via where
+  | appendChild | prependChild | prependSibling | appendSibling
+deriving Repr, DecidableEq, Inhabited
+
+/-- the `add_child` call that a shortcut called on node `ref` makes: (target, `before`, `kind`).
+* `append_child(data, kind=k)`  = `self.add_child(data, kind=k, before=None)`;
+* `prepend_child(data, kind=k)` = `self.add_child(data, kind=k, before=self.first_child())`
+  (typed: `first_child(kind=ANY_KIND)`): the first child whatever its kind, `None` (= append) when there
+  are no children;
+* `prepend_sibling(data)` = `self._parent.add_child(data, before=self)`; in a typed tree with
+  `kind=self.kind` — the shortcut has no `kind` parameter, the caller's `kind` is not consulted;
+* `append_sibling(data)`  = `self._parent.add_child(data, before=self.next_sibling())` (typed:
+  `next_sibling(any_kind=True)`, `kind=self.kind`): the child that follows `self` in the parent's
+  list whatever its kind, `None` (= append) when `self` is the last one.
+The sibling forms on the system root (`_parent is None`) raise `AttributeError`; an unknown `ref` is
+`Err.other` (the driver never sends one).  In a plain tree `x.kind` is `none` and `addData` ignores it. -/
+def Tree.viaArgs (t : Tree) (ref : NodeId) (via : Via) (kind : Option String) :
+    Except Err (NodeId × Before × Option String) :=
+  match via with
+  | .appendChild => .ok (ref, .none, kind)
+  | .prependChild =>
+    match findT ref t.root with
+    | none => .error .other
+    | some p => match p.kids with
+      | [] => .ok (ref, .none, kind)
+      | c :: _ => .ok (ref, .node c.id, kind)
+  | .prependSibling =>
+    match findT ref t.root, findParent ref t.root with
+    | none, _ => .error .other
+    | some _, none => .error .attribute
+    | some x, some par => .ok (par.id, .node ref, x.kind)
+  | .appendSibling =>
+    match findT ref t.root, findParent ref t.root with
+    | none, _ => .error .other
+    | some _, none => .error .attribute
+    | some x, some par =>
+      match par.kids[idxOf ref par.kids + 1]? with
+      | some s => .ok (par.id, .node s.id, x.kind)
+      | none => .ok (par.id, .none, x.kind)
+
+/-! ### `tree[key]` / `del tree[key]` -/
+
+/-- `hash(i)` of a Python `int` in the range the harness uses (|i| < 2^61 - 1): the value itself,
+except `hash(-1) == -2`. -/
+def pyHashInt (i : Int) : Int := if i = -1 then -2 else i
+
+/-- `Tree.__getitem__(key)` up to the list of matches (`res`).  The key is described by
+`a` — the key as a data object, when it is one of the pool's objects — and `asId` — the key as a
+data_id, when it is an `int` or a `str` (both are given for a pool object that is an `int`/`str`).
+Statement by statement:
+* `isinstance(key, Node)` (neither `a` nor `asId`) → ValueError;
+* the `node_id` lookup for `int` keys is NOT modelled: default node ids are `id(node)`, never a small
+  int, and the harness never passes a `node_id=`;
+* `isinstance(key, (int, str)) and key in self._nodes_by_data_id` → `find_all(data_id=key)`;
+* otherwise `find_all(key)`: the clones registered under `calc_data_id(key)` — the hook-aware
+  `Tree.calcId` that `addData` uses (a raising hook is `Err.callback`); for an `int` that is no pool
+  object the id is `hash(key)`; a `str` that is no pool object has an unpredictable (salted) hash, which
+  is assumed not to be a data_id in use: no match. -/
+def Tree.lookupKey (t : Tree) (a : Option Atom) (asId : Option DataId) : Except Err (List NodeId) :=
+  if a.isNone && asId.isNone then .error .value
+  else
+    match asId.bind (fun d => t.byData.lookup d) with
+    | some clones => .ok clones
+    | none =>
+      match a with
+      | some atom =>
+        match t.calcId atom with
+        | .error e => .error e
+        | .ok d => .ok ((t.byData.lookup d).getD [])
+      | none =>
+        match asId with
+        | some (.int i) => .ok ((t.byData.lookup (.int (pyHashInt i))).getD [])
+        | _ => .ok []
+
+/-- `Tree.__delitem__(key)` = `self[key].remove()`: no match → KeyError, several →
+AmbiguousMatchError, exactly one node → `remove()` with the defaults (children removed too, no
+clones). -/
+def Tree.delItem (t : Tree) (a : Option Atom) (asId : Option DataId) : Tree × Option Err :=
+  match t.lookupKey a asId with
+  | .error e => (t, some e)
+  | .ok [] => (t, some .key)
+  | .ok [n] => t.remove n false false
+  | .ok _ => (t, some .ambiguous)
+
 end Nutree
